@@ -12,6 +12,29 @@
 
 using namespace foonathan::memory;
 
+// verification hooks (only with -DFOONATHAN_MEMORY_VERIF): scheduling points before every step on shared memory
+// of the temporary stack list, so that a controlled scheduler can interleave real threads deterministically
+#if defined(FOONATHAN_MEMORY_VERIF) && FOONATHAN_MEMORY_VERIF
+namespace foonathan
+{
+    namespace memory
+    {
+        namespace detail
+        {
+            void (*verif_yield_hook)(int) = nullptr;
+        }
+    } // namespace memory
+} // namespace foonathan
+#define FOONATHAN_MEMORY_VERIF_YIELD(Point)                                                         \
+    do                                                                                             \
+    {                                                                                              \
+        if (foonathan::memory::detail::verif_yield_hook)                                           \
+            foonathan::memory::detail::verif_yield_hook(Point);                                    \
+    } while (0)
+#else
+#define FOONATHAN_MEMORY_VERIF_YIELD(Point)
+#endif
+
 namespace
 {
     void default_growth_tracker(std::size_t) noexcept {}
@@ -79,9 +102,11 @@ public:
 
     temporary_stack* find_unused()
     {
+        FOONATHAN_MEMORY_VERIF_YIELD(1); // before the list head is read
         for (auto ptr = first.load(); ptr; ptr = ptr->next_)
         {
             auto value = false;
+            FOONATHAN_MEMORY_VERIF_YIELD(2); // before each attempt to take over a stack
             if (ptr->in_use_.compare_exchange_strong(value, true))
                 return static_cast<temporary_stack*>(ptr);
         }
@@ -104,11 +129,13 @@ public:
     {
         // stack should be empty now, so shrink_to_fit() clears all memory
         stack.stack_.shrink_to_fit();
+        FOONATHAN_MEMORY_VERIF_YIELD(4); // before the stack is marked as free
         stack.in_use_ = false; // mark as free
     }
 
     void destroy()
     {
+        FOONATHAN_MEMORY_VERIF_YIELD(5); // before the list is taken apart
         for (auto ptr = first.exchange(nullptr); ptr;)
         {
             auto stack = static_cast<temporary_stack*>(ptr);
@@ -148,6 +175,7 @@ namespace
 
 detail::temporary_stack_list_node::temporary_stack_list_node(int) noexcept : in_use_(true)
 {
+    FOONATHAN_MEMORY_VERIF_YIELD(3); // before the new node is pushed
     next_ = temporary_stack_list_obj.first.load();
     while (!temporary_stack_list_obj.first.compare_exchange_weak(next_, this))
         ;
@@ -185,6 +213,27 @@ temporary_stack& foonathan::memory::get_temporary_stack(std::size_t initial_size
         temp_stack = temporary_stack_list_obj.create(initial_size);
     return *temp_stack;
 }
+
+#if defined(FOONATHAN_MEMORY_VERIF) && FOONATHAN_MEMORY_VERIF
+// read-only views for the verification harness
+namespace foonathan
+{
+    namespace memory
+    {
+        namespace detail
+        {
+            temporary_stack_list_node* verif_temporary_list_head() noexcept
+            {
+                return temporary_stack_list_obj.first.load();
+            }
+            temporary_stack* verif_thread_temporary_stack() noexcept
+            {
+                return temp_stack;
+            }
+        } // namespace detail
+    }     // namespace memory
+} // namespace foonathan
+#endif
 
 #elif FOONATHAN_MEMORY_TEMPORARY_STACK_MODE == 1
 
